@@ -894,11 +894,39 @@ def record_cases(rng: random.Random) -> List[TCase]:
             for wrap_a, wrap_x in ((lambda t: t, lambda v: v), (lambda t: ("AList", t), lambda v: ("VList", [v]))):
                 for sig in (False, True):
                     out.append(TCase(classes, wrap_a(a), wrap_x(x), sig, "records"))
+    # an instance of a subclass (same fields, and with a field of its own) is not a value of the annotated
+    # dataclass under the exact-type reading - bare, as a field of another dataclass, in a list, under Optional
+    fields = [("x", sc("KInt"), None, True), ("y", sc("KInt"), None, True)]
+    for extra in (False, True):
+        sub_fields = fields + ([("z", sc("KInt"), I(0), False)] if extra else [])
+        classes = base + [{"kind": "data", "fields": fields, "hashable": False},
+                          {"kind": "data", "base_cls": len(base), "own": 1 if extra else 0, "fields": sub_fields, "hashable": False}]
+        pid, sid, oid = len(base), len(base) + 1, len(base) + 2
+        pa = ("ARecord", ("RkData",), N(pid), [P(S(n), P(t, r)) for (n, t, _d, r) in fields])
+        ofields = [("start", pa, None, True), ("end", pa, None, True)]
+        classes = classes + [{"kind": "data", "fields": ofields, "hashable": False}]
+        oa = ("ARecord", ("RkData",), N(oid), [P(S(n), P(t, r)) for (n, t, _d, r) in ofields])
+        ents = [P(S("x"), I(1)), P(S("y"), I(2))]
+        inst = ("VObj", N(pid), ents)
+        sub = ("VObj", N(sid), ents + ([P(S("z"), I(3))] if extra else []))
+        for x in (inst, sub):
+            for a, xx in ((pa, x), (("AList", pa), ("VList", [inst, x])), (("AUnion", [pa, ("ANone",)]), x),
+                          (oa, ("VObj", N(oid), [P(S("start"), inst), P(S("end"), x)]))):
+                for sig in (False, True):
+                    out.append(TCase(classes, a, xx, sig, "records"))
     return out
 
 
 def gen_cases(rng: random.Random, n: int) -> List[TCase]:
+    """The explicit families, a stream that is the same on every run (private generator: what it exhibits does not
+    depend on how many draws the families above happen to consume), and n cases from the run's own seed."""
     out: List[TCase] = literal_cases(rng) + wrapper_cases(rng) + record_cases(rng)
+    out += random_cases(random.Random(70907), 700)
+    return out + random_cases(rng, n)
+
+
+def random_cases(rng: random.Random, n: int) -> List[TCase]:
+    out: List[TCase] = []
     while len(out) < n:
         g = Gen(rng)
         a = g.ann(rng.choice([0, 1, 1, 2, 2, 3]))
@@ -924,7 +952,7 @@ def gen_cases(rng: random.Random, n: int) -> List[TCase]:
 
 def run(tier: str, rng: random.Random, proof_ok: bool) -> dict:
     t0 = time.time()
-    n = 2500 if tier == "quick" else 40000
+    n = 1200 if tier == "quick" else 40000
     if not proof_ok:
         n *= 2
     cases = gen_cases(rng, n)
